@@ -140,6 +140,9 @@ func runGen(cfg *Cfg) {
 				break
 			}
 		}
+		if first != nil && len(first.File) == 1 {
+			indexLines(out, req.ProtoFile[len(req.ProtoFile)-1], first.File[0].GetContent())
+		}
 		if len(out.res.Samples) < 3 {
 			out.Sample("request " + rep.ID + " (" + rep.Corpus + "): " + fmt.Sprint(len(first.GetFile())) + " files")
 		}
@@ -229,6 +232,12 @@ func runGen(cfg *Cfg) {
 				out.Violate("C12", "plugin-crash:param", "plugin crashed for parameter "+pc.param+": "+err.Error(), rp)
 				continue
 			}
+			// model line: the Lean model of parameter parsing / feature selection / emit decision
+			exp := "err"
+			if resp.Error == nil {
+				exp = "ok emits=" + map[bool]string{true: "t", false: "f"}[len(resp.File) > 0]
+			}
+			out.Line("C12,C13", "paramq "+pc.param, exp)
 			if pc.wantErr && resp.Error == nil {
 				out.Violate("C12", "unknown-feature-accepted", "request that cannot be served was not answered with an error: "+pc.param, rp)
 			}
@@ -579,4 +588,57 @@ func scalarAgrees(g reflect.Value, v protoreflect.Value, fd protoreflect.FieldDe
 		return bytes.Equal(g.Bytes(), v.Bytes())
 	}
 	return false
+}
+
+var reMsgIdx = regexp.MustCompile(`func \(x \*(\w+)\) slowProtoReflect\(\) protoreflect\.Message \{\s*mi := &\w+_msgTypes\[(\d+)\]`)
+var reChain = regexp.MustCompile(`md_(\w+) = File_\w+((?:\.Messages\(\)\.ByName\("\w+"\))+)`)
+var reByName = regexp.MustCompile(`ByName\("(\w+)"\)`)
+
+// indexLines: ties the Lean model of the flattened message order / index scan / parent chain to the
+// tables actually emitted: for every message of the file, `msgindex <forest> <dotted name>` must give
+// the N of `&file_x_msgTypes[N]` and the ByName chain printed in the emitted init().
+func indexLines(out *Out, fd *descriptorpb.FileDescriptorProto, src string) {
+	var forest func(ms []*descriptorpb.DescriptorProto) string
+	forest = func(ms []*descriptorpb.DescriptorProto) string {
+		var parts []string
+		for _, m := range ms {
+			if len(m.NestedType) > 0 {
+				parts = append(parts, m.GetName()+"("+forest(m.NestedType)+")")
+			} else {
+				parts = append(parts, m.GetName())
+			}
+		}
+		return strings.Join(parts, ",")
+	}
+	f := forest(fd.MessageType)
+	if f == "" {
+		return
+	}
+	idx := map[string]string{}
+	for _, m := range reMsgIdx.FindAllStringSubmatch(src, -1) {
+		idx[m[1]] = m[2]
+	}
+	chain := map[string]string{}
+	for _, m := range reChain.FindAllStringSubmatch(src, -1) {
+		var names []string
+		for _, b := range reByName.FindAllStringSubmatch(m[2], -1) {
+			names = append(names, b[1])
+		}
+		chain[m[1]] = strings.Join(names, ",")
+	}
+	var walk func(ms []*descriptorpb.DescriptorProto, dotted, goName []string)
+	walk = func(ms []*descriptorpb.DescriptorProto, dotted, goName []string) {
+		for _, m := range ms {
+			d := append(append([]string(nil), dotted...), m.GetName())
+			g := append(append([]string(nil), goName...), m.GetName())
+			if !m.GetOptions().GetMapEntry() {
+				gn := strings.Join(g, "_")
+				if n, ok := idx[gn]; ok {
+					out.Line("C19,C13", "msgindex "+f+" "+strings.Join(d, "."), "ok "+n+" "+chain[gn])
+				}
+			}
+			walk(m.NestedType, d, g)
+		}
+	}
+	walk(fd.MessageType, nil, nil)
 }
